@@ -26,6 +26,7 @@ ANCHORS = {"matrix_functions.py": ["matrix_eigenvectors", "_compute_orthogonal_i
 
 C = 64.0
 SPECTRA = ["distinct", "clustered", "repeated", "rank_deficient", "geometric"]
+STRUCTURES = ["dense", "dense", "dense", "dense", "diagonal_unflagged", "permuted_diagonal", "block_diagonal", "identity_multiple", "zero"]
 ESTIMATES = ["zero", "exact_sorted", "exact_unsorted", "haar", "rotated"]
 
 
@@ -99,13 +100,28 @@ def run_case(case):
         kind = rnd.choice(SPECTRA)
         scale = rnd.choice([1e-4, 1.0, 1.0, 1e3])
         lam = _spectrum(kind, n, gen, torch) * scale
-        Qt = matref.haar(n, gen)
+        structure = rnd.choice(STRUCTURES)
+        if structure == "dense":
+            Qt = matref.haar(n, gen)
+        elif structure == "diagonal_unflagged":  # exactly diagonal, unsorted diagonal, is_diagonal NOT set
+            Qt = torch.eye(n, dtype=D)
+        elif structure == "permuted_diagonal":
+            Qt = torch.eye(n, dtype=D)[:, torch.randperm(n, generator=gen)]
+        elif structure == "block_diagonal":
+            k = max(1, n // 2)
+            Qt = torch.block_diag(matref.haar(k, gen), matref.haar(n - k, gen)) if n - k > 0 else matref.haar(n, gen)
+        elif structure == "identity_multiple":
+            Qt = matref.haar(n, gen)
+            lam = torch.full((n,), float(lam.max()), dtype=D)
+        else:
+            Qt = matref.haar(n, gen)
+            lam = torch.zeros(n, dtype=D)
         A64 = matref.sym_from(Qt, lam)
         A = A64.to(dtype)
         if n > 1:
             A = (A + A.T) / 2
         Ad = A.to(D)
-        desc = {"method": case["method"], "n": n, "dtype": case["dtype"], "spectrum": kind, "scale": scale}
+        desc = {"method": case["method"], "n": n, "dtype": case["dtype"], "spectrum": kind, "scale": scale, "structure": structure}
         counters["evals"] += 1
         if n == 1:
             cfg = EighEigenvectorConfig() if case["method"] == "eigh" else QRConfig()
@@ -127,7 +143,7 @@ def run_case(case):
             out = mf.matrix_eigenvectors(A, eigenvector_computation_config=EighEigenvectorConfig())
             _check_eigh_like(torch, out, Ad, n, u, desc, counters, "eigh method")
             counters["eigh_checked"] += 1
-            sigs.add(("eigh", kind, case["dtype"], min(7, n.bit_length())))
+            sigs.add(("eigh", kind, structure, case["dtype"], min(7, n.bit_length())))
             if sample is None:
                 sample = dict(desc, eigenvalues_head=[float(x) for x in sorted(lam.tolist())[:4]])
             continue
@@ -184,8 +200,8 @@ def run_case(case):
             sigs.add(("qr", est_kind, kind, case["dtype"], min(7, n.bit_length()), min(K, 8), tol))
         # fixed point: exact eigenbasis with distinct, well separated eigenvalues stays put (up to signs / a permutation),
         # as long as the rounding-level instability of the ascending order ((lmax/lmin)^k growth) stays below the tolerance
-        if est_kind in ("exact_sorted", "exact_unsorted") and kind in ("distinct", "geometric"):
-            gaps = (evA[1:] - evA[:-1]).abs().min()
+        gaps = (evA[1:] - evA[:-1]).abs().min()
+        if est_kind in ("exact_sorted", "exact_unsorted") and kind in ("distinct", "geometric") and float(gaps) > 0 and nA > 0:
             amp = (float(evA.max()) / max(float(evA.min()), 1e-300)) ** K
             tolfp = 256 * n * u * nA / float(gaps) * amp
             if tolfp < 0.05:
